@@ -8,7 +8,7 @@ import common as c
 
 PID = "C17"
 MANIFEST = {
-    "text": "36 Coq theorems over the unit table regenerated from the built crate on every run: exhaustive (vm_compute, "
+    "text": "41 Coq theorems over the unit table regenerated from the built crate on every run: exhaustive (vm_compute, "
             "bound = the table) identifier resolution / no duplicates / alias / ambiguity / category / prefix-ratio / "
             "well-formedness theorems; unbounded theorems on resolve_unit for every string and table; self-conversion "
             "identity in every arithmetic (bit-exact in binary64); exact-rational there-and-back and composition laws about "
@@ -18,13 +18,14 @@ MANIFEST = {
             "2^-53(1+1/1024)(A|v|+B) for the temperature kind (9 constant pairs), composition A>B>C vs A>C <= "
             "(qq^6-1)|fl(A>C)| linear/reciprocal and an absolute bound for temperature (27 constant pairs); the range "
             "hypotheses are a decidable exponent condition proved sufficient and proved by vm_compute for every pair / "
-            "triple of linear or reciprocal units of one category of the table, for all valid v with 2^-40 <= |v| <= 2^40 "
+            "triple of linear or reciprocal units of one category of the table, for all valid v with 2^-40 <= |v| <= 2^40 and, "
+            "as separate _wide theorems, 2^-800 <= |v| <= 2^800 "
             "(temperature: every finite |v| <= 2^1000); the implementation-level search uses exactly the proved bounds as "
             "tolerances (exact rational comparison; the temperature constants are compared with the Coq tables every run)",
     "note": "trusted: Coq kernel + vm_compute; harness dump-units (reflective dump of get_all_units()); the hand "
             "transcription of resolve_unit/convert (validated by the UNITS/RESOLVE/LOWER/BUILTIN correspondence streams); "
             "Rust to_lowercase modelled only on ASCII + the dumped non-ASCII characters; PARTIAL: the float theorems for "
-            "the linear/reciprocal kinds cover 2^-40 <= |v| <= 2^40 (zero: exact over Q only; outside the window the search "
+            "the linear/reciprocal kinds cover 2^-800 <= |v| <= 2^800 (zero: exact over Q only; outside the window the search "
             "falls back to 4/6 ulp, counted in the evidence); mixed-kind categories do not exist in the table (proved "
             "exhaustively) and are not covered; the prefix-ratio law is tested at 2 ulp, its binary64 bound is not proved; "
             "axioms: none except the allow-listed real-number/classical axioms under the Flocq theorems",
@@ -210,14 +211,14 @@ TEMP_SPECIAL = [-273.15, -459.67, 0.0, -0.0, 32.0, 273.15, 255.3722222222222, -4
 
 def special_magnitude(rng, temperature):
     """magnitudes for the reciprocal / temperature kinds: temperature takes any finite |v| <= 2^1000 (offsets, zero,
-    subnormal, huge); the others a random mantissa times 2^e, e mostly in the proved window [-40, 39]"""
+    subnormal, huge); the others a random mantissa times 2^e, e mostly in [-40, 39], else in the wide proved window [-790, 789]"""
     if temperature and rng.chance(1, 4):
         return rng.choice(TEMP_SPECIAL)
     mant = 1.0 + rng.below(1 << 52) / float(1 << 52)
     if temperature:
         e = rng.below(41) - 20 if rng.chance(2, 3) else rng.below(1901) - 950
     else:
-        e = rng.below(80) - 40 if rng.chance(9, 10) else rng.below(401) - 200
+        e = rng.below(80) - 40 if rng.chance(9, 10) else rng.below(1580) - 790
     x = mant * 2.0 ** e
     return -x if rng.chance(1, 3) else x
 
@@ -387,6 +388,7 @@ BOUND_TAB_LINEAR = (1 + U53) ** 4 - 1       # C17_there_and_back_float_linear_ta
 BOUND_TAB_LR = QQ ** 4 - 1                  # C17_there_and_back_float_table (linear/reciprocal mix)
 BOUND_COMP_LR = QQ ** 6 - 1                 # C17_composition_float_table: |fl(A>B>C) - fl(A>C)| <= this * |fl(A>C)|
 KV = 40                                     # hypothesis of those theorems: 2^-40 <= |v| <= 2^40
+KW = 800                                    # ... and of their _wide forms: 2^-800 <= |v| <= 2^800
 # C17_there_and_back_float_temperature: |r - v| <= 2^-53 * (1 + 1/1024) * (A*|v| + B), (A, B) by the to_kelvin functions
 TEMP_AB = {
     ("TF_kelvin_to_kelvin", "TF_kelvin_to_kelvin"): (0, 0),
@@ -420,8 +422,13 @@ def _exact(bits):
     return _Fr(b2f(bits))
 
 
-def _in_window(av):
-    return _Fr(1, 2 ** KV) <= av <= _Fr(2 ** KV)
+def _window(av):
+    """"" inside [2^-40, 2^40], "_wide" inside [2^-800, 2^800], None outside"""
+    if _Fr(1, 2 ** KV) <= av <= _Fr(2 ** KV):
+        return ""
+    if _Fr(1, 2 ** KW) <= av <= _Fr(2 ** KW):
+        return "_wide"
+    return None
 
 
 _FROM_TO = {"TF_kelvin_to_celsius": "TF_celsius_to_kelvin", "TF_kelvin_to_fahrenheit": "TF_fahrenheit_to_kelvin",
@@ -450,11 +457,12 @@ def proved_tab_bound(u, x, vbits):
         return None, "temperature mixed with another kind"
     if av == 0:
         return _Fr(0), "zero (exact: 0*c/c = 0, c/inf = 0; C17_there_and_back_Q)"
-    if not _in_window(av):
-        return None, "|v| outside [2^-40, 2^40]"
+    w = _window(av)
+    if w is None:
+        return None, "|v| outside [2^-800, 2^800]"
     if ku == "linear" and kx == "linear":
-        return BOUND_TAB_LINEAR * av, "C17_there_and_back_float_linear_table"
-    return BOUND_TAB_LR * av, "C17_there_and_back_float_table"
+        return BOUND_TAB_LINEAR * av, "C17_there_and_back_float_linear_table" + w
+    return BOUND_TAB_LR * av, ("C17_there_and_back_float_table" if w == "" else "C17_builtin_there_and_back_float_wide")
 
 
 def proved_comp_bound(us, vbits, r3bits):
@@ -471,9 +479,10 @@ def proved_comp_bound(us, vbits, r3bits):
     av = abs(_exact(vbits))
     if av == 0:
         return _Fr(0), "zero (exact)"
-    if not _in_window(av):
-        return None, "|v| outside [2^-40, 2^40]"
-    return BOUND_COMP_LR * abs(_exact(r3bits)), "C17_composition_float_table"
+    w = _window(av)
+    if w is None:
+        return None, "|v| outside [2^-800, 2^800]"
+    return BOUND_COMP_LR * abs(_exact(r3bits)), ("C17_composition_float_table" if w == "" else "C17_builtin_composition_float_wide")
 
 
 # ----------------------------------------------------------------------------- laws on the implementation
